@@ -46,6 +46,11 @@ def home_key(name):
     return b"cs"
 
 
+HOSTILE_GLOBS = [b"news.\\", b"\\", b"*\\", b"?\\", b"[", b"[a", b"[a-", b"[^", b"[]", b"[]]", b"[\\", b"[a-\\", b"*[", b"a[b-", b"[z-a]", b"[!", b"\\[", b"***************a", b"*" * 300 + b"x",
+                 b"?" * 300, b"[" * 300, b"\\" * 301, b"", b"\xff[\xfe-", b"a\x00*"]
+HOSTILE_TEXTS = [b"news.sport", b"news.", b"", b"a", b"[", b"\\", b"a" * 66 + b"b", b"\xff\xfe", b"x" * 400]
+
+
 class C06:
     def __init__(self, rep):
         self.rep = rep
@@ -196,6 +201,14 @@ class C06:
             "multi-exec-bpop": lambda c2: [self._quiet(c2, x, 0.5) for x in (["MULTI"], ["BLPOP", "sq", "0"], ["BRPOP", "sq2", "0"], ["EXEC"])],
             "watch-abort": lambda c2: [self._quiet(c2, x, 0.5) for x in (["WATCH", "sq"], ["MULTI"], ["RPUSH", "sq", "w"])] + [self._quiet(self.srv.client(timeout=1.0), ["DEL", "sq"], 0.5), self._quiet(c2, ["EXEC"], 0.5)],
             "subscribe-then-close": lambda c2: (c2.send("SUBSCRIBE", "sq"), time.sleep(0.03), c2.close()),
+            # hostile glob patterns are evaluated LATER, by somebody else's PUBLISH / KEYS
+            "psubscribe-hostile-patterns": lambda c2: ([c2.send("PSUBSCRIBE", p) for p in HOSTILE_GLOBS], time.sleep(0.05),
+                                                       [self._quiet(self.srv.client(timeout=1.0), ["PUBLISH", ch, "m"], 0.5) for ch in HOSTILE_TEXTS]),
+            "keys-hostile-patterns": lambda c2: [self._quiet(c2, [cmd, *pre, p], 0.5) for p in HOSTILE_GLOBS for cmd, pre in (("KEYS", []), ("SCAN", ["0", "MATCH"]), ("SSCAN", ["cset", "0", "MATCH"]))],
+            # values that compare equal to nothing (NaN) or to several things (signed zeros, infinities) inside ordered structures
+            "zset-inf-arith": lambda c2: [self._quiet(c2, x, 1.5) for x in (["ZADD", "sqz", "1", "b", "inf", "a", "-inf", "c", "0", "z", "-0", "y"], ["ZINCRBY", "sqz", "-inf", "a"], ["ZINCRBY", "sqz", "inf", "c"],
+                                                                          ["ZINCRBY", "sqz", "nan", "b"], ["ZADD", "sqz", "nan", "n"], ["ZRANK", "sqz", "a"], ["ZRANGE", "sqz", "0", "-1", "WITHSCORES"], ["ZRANGEBYSCORE", "sqz", "-inf", "+inf"],
+                                                                          ["ZCOUNT", "sqz", "(inf", "(-inf"], ["ZREM", "sqz", "a"], ["ZPOPMIN", "sqz", "9223372036854775807"], ["ZPOPMAX", "sqz", "9223372036854775807"], ["ZCARD", "sqz"])],
         }
         followers = [["RPUSH", "sq", "a"], ["LPUSH", "sq2", "a", "b"], ["MULTI"], ["RPUSH", "sq", "b"], ["LPOP", "sq"], ["EXEC"],
                      ["EVAL", "return redis.call('RPUSH', KEYS[1], 'c')", "1", "sq"], ["RPUSH", "sq:src", "d"], ["RENAME", "sq:src", "sq"], ["RENAME", "sq", "sq2"],
@@ -274,6 +287,9 @@ class C06:
 
     def sweep_frames(self, r, tier):
         frames = [b"*1\r\n" * n + tail for n in (10, 128, 129, 1000, 20000, 200000) for tail in (b"", b"$4\r\nPING\r\n", b":1\r\n")]
+        # nesting through every aggregate type and every position inside it (a level that forgets to count is a stack overflow)
+        frames += [op * 300000 + b":1\r\n" for op in (b"~1\r\n", b">1\r\n", b"%1\r\n+k\r\n", b"%1\r\n", b"|1\r\n+k\r\n", b"|1\r\n", b"*2\r\n:1\r\n", b"~2\r\n:1\r\n",
+                                                            b"*1\r\n~1\r\n", b"%1\r\n+k\r\n*1\r\n", b"*1\r\n%1\r\n:1\r\n")]
         frames += [b"*%d\r\n" % n for n in (10 ** 6, 10 ** 9, 2 ** 31, 2 ** 62, 2 ** 63 - 1)]
         frames += [b"$%d\r\n" % n + b"abc" for n in (10 ** 6, 10 ** 9, 2 ** 31, 2 ** 62, 2 ** 63 - 1)]
         frames += [b"%%%d\r\n" % n for n in (10 ** 9, 2 ** 63, 2 ** 64 - 1)] + [b"~%d\r\n" % n for n in (10 ** 9, 2 ** 64 - 1)]
